@@ -26,15 +26,29 @@ package main
 //	mupd <key> <val> <w>         Update on the source and on the imported trie -> <res> <res> <root> <w> <root> <w>
 //	mdel <key> / mupdel <key>    Delete / Update(nil) on both
 //
+//	commit2 <lvl>                Commit(lvl), then a second Commit(lvl) on the now clean root (a periodic flush with nothing
+//	                             to write), then both batches committed in call order      -> like commit
+//	fault <class> <k>            arm the storage: the k-th next call of <class> (get | bput | bdel | bcommit) fails once -> ok
+//	nofault                      disarm                                                        -> ok
+//
 // <storage ops> = the atomic storage operations the call produced (wmFmtEntries).
+//
+// Injected storage failures (suite wfault; no Lean model follows them). An operation during which the armed failure fired
+// and that returned an error is RETRIED once by the runner (the failure is one-shot); the retry must succeed and all
+// oracles apply to the state after it, and to every later operation: an operation that reports an error has to leave the
+// trie in a state from which the history continues correctly. A failed batch Commit is retried on the same batch. An
+// operation that swallowed the failure and reported success is held to the ordinary oracles. What the code at HEAD does
+// NOT satisfy is matched as an observation (tag obs:…), the case stops there (notes/C11.md, "storage failures").
 
 import (
 	"bytes"
+	"errors"
 	"fmt"
 	"sort"
 	"strconv"
 	"strings"
 
+	"github.com/0chain/common/core/util/storage"
 	"github.com/0chain/common/core/util/wmpt"
 )
 
@@ -87,6 +101,19 @@ type wrun struct {
 
 	export []byte
 	part   *wmpt.WeightedMerkleTrie
+
+	// fault injection
+	fired0         int      // number of fired failures when the current op started
+	quiet          bool     // oracle failures are held back while an armed storage failure may fire
+	held           []string // … here
+	heldUncov      bool
+	retrying       bool // the current op is the retry of an op that failed through an injected storage failure
+	faultInOp      bool // the armed failure fired during the current op
+	abandoned      bool // an observation matched: the rest of the case is skipped
+	faultClass     string
+	faultK         int
+	createdSuspect bool            // a Get failed (and was swallowed) during the last commit
+	changed        map[string]bool // keys changed since the last commit / reload / rollback
 }
 
 type wdurable struct {
@@ -109,6 +136,10 @@ func (x *wrun) fail(i int, f string, a ...interface{}) {
 // failIn records an oracle failure; cover is the finding whose matcher accepts it ("" = none).
 func (x *wrun) failIn(cover string, i int, f string, a ...interface{}) {
 	msg := fmt.Sprintf("op %d (%s): ", i, wmClip(x.ops[i], 120)) + fmt.Sprintf(f, a...)
+	if x.quiet {
+		x.held = append(x.held, msg)
+		return
+	}
 	if cover != "" {
 		msg = "[" + cover + "] " + msg
 		if x.res.Finding == "" {
@@ -133,6 +164,13 @@ func (x *wrun) newEntries(from int) []logEntry {
 	x.st.mu.Lock()
 	defer x.st.mu.Unlock()
 	return append([]logEntry(nil), x.st.log[from:]...)
+}
+
+func (x *wrun) noteChanged(key string) {
+	if x.changed == nil {
+		x.changed = map[string]bool{}
+	}
+	x.changed[key] = true
 }
 
 func (x *wrun) noteContent() {
@@ -177,7 +215,9 @@ func runWmpt(ops []string) CaseResult {
 			x.tags["panic"] = true
 		}
 	}
-	x.crashEnumeration(len(ops) - 1)
+	if !x.abandoned {
+		x.crashEnumeration(len(ops) - 1)
+	}
 	for t := range x.tags {
 		x.res.Tags = append(x.res.Tags, t)
 	}
@@ -188,7 +228,126 @@ func runWmpt(ops []string) CaseResult {
 	return x.res
 }
 
+// step runs one op; with an armed storage failure it applies the retry protocol described at the top of the file.
 func (x *wrun) step(i int, f []string) string {
+	if x.abandoned {
+		return "skip"
+	}
+	x.fired0 = x.st.fired()
+	switch f[0] {
+	case "fault":
+		x.st.arm(f[1], atoi(f[2]))
+		x.faultClass, x.faultK = f[1], atoi(f[2])
+		x.tags["fault-armed:"+f[1]] = true
+		return "ok"
+	case "nofault":
+		x.st.disarm()
+		return "ok"
+	}
+	x.st.mu.Lock()
+	armed := x.st.faultClass != ""
+	x.st.mu.Unlock()
+	if !armed {
+		return x.step1(i, f)
+	}
+	fired0 := x.st.fired()
+	x.quiet, x.held = true, nil
+	out := x.step1(i, f)
+	x.quiet = false
+	held := x.held
+	x.held = nil
+	if x.st.fired() == fired0 {
+		for _, m := range held { // the failure did not fire during this op: its oracle failures are real
+			x.failMsg(m)
+		}
+		return out
+	}
+	x.tags["fault-hit:"+x.faultClass+":"+f[0]] = true
+	if strings.HasPrefix(out, "ok") || out == "skip" || out == "notfound" || out == "range" {
+		// the failure was swallowed (or hit a call whose result is not part of the answer): ordinary oracles
+		x.tags["fault-swallowed:"+x.faultClass+":"+f[0]] = true
+		if x.faultClass == "get" && strings.HasPrefix(f[0], "commit") {
+			x.createdSuspect = true
+		}
+		for _, m := range held {
+			x.failMsg(m)
+		}
+		return "fault-swallowed " + out
+	}
+	if out == "panic" {
+		x.failMsg(fmt.Sprintf("op %d (%s): panic after an injected %s failure", i, wmClip(x.ops[i], 120), x.faultClass))
+		return "fault panic"
+	}
+	// the op reported the error: retry once, everything has to be right afterwards
+	lenient := ""
+	if (f[0] == "commit" || f[0] == "commit2") && x.faultClass == "bput" && !(x.faultK == 1 && !x.live.rootIsBranch()) {
+		// Commit hands the batch to the caller only on success: nodes it saved (and flagged clean) before the failing Put —
+		// or concurrently with it, in the goroutines that commit the other children of a branch root — are in a batch nobody
+		// gets, and the retry does not write them again. HEAD recovers when the failing Put is the very first one and the
+		// root is not a branch (the walk is sequential then, leaves first): that case is held to the full oracle.
+		lenient = "commit-retry-after-a-failed-batch-put-loses-the-nodes-saved-before-it"
+	}
+	x.retrying = true
+	x.quiet, x.held = lenient != "", nil
+	out2 := x.step1(i, f)
+	x.retrying = false
+	if !x.abandoned {
+		x.fullCheck(i)
+	}
+	x.quiet = false
+	if len(x.held) > 0 {
+		x.held = nil
+		x.observe(lenient)
+	}
+	if x.abandoned {
+		return "fault " + out + " retry " + out2 + " (observation)"
+	}
+	return "fault " + out + " retry " + out2
+}
+
+func (x *wrun) failMsg(msg string) {
+	x.uncov = x.uncov || x.cover == ""
+	if x.cover != "" {
+		msg = "[" + x.cover + "] " + msg
+		if x.res.Finding == "" {
+			x.res.Finding = x.cover
+		}
+	}
+	if len(x.res.Fails) < 12 {
+		x.res.Fails = append(x.res.Fails, msg)
+	}
+}
+
+// observe records that the code at HEAD does not satisfy the fault oracle in a known way; the case stops here.
+func (x *wrun) observe(what string) {
+	x.tags["obs:"+what] = true
+	x.abandoned = true
+}
+
+// fullCheck: the live trie against the oracle content — total weight, root, owner of the blocks to check.
+func (x *wrun) fullCheck(i int) {
+	x.checkWeight(i)
+	x.hashRead()
+	if got, want := guard2(func() []byte { return x.t.Root() }), canonRootW(x.live, nil); !bytes.Equal(got, want) {
+		x.fail(i, "Root() = %x, canonical root of the live content = %x", got, want)
+	}
+	for _, b := range x.live.blocksToCheck() {
+		want, _ := x.live.owner(b)
+		out := guard(func() string {
+			key, _, err := x.t.GetBlockProof(b)
+			if err != nil {
+				return werr(err)
+			}
+			return string(key)
+		})
+		if out != want {
+			x.fail(i, "owner of block %d is %x, want %x", b, out, want)
+			return
+		}
+	}
+}
+
+func (x *wrun) step1(i int, f []string) string {
 	switch f[0] {
 	case "upd":
 		key, val, w := unhx(f[1]), unhx(f[2]), u64(f[3])
@@ -203,6 +362,7 @@ func (x *wrun) step(i int, f []string) string {
 				}
 			}
 			x.live[string(key)] = went{val, w}
+			x.noteChanged(string(key))
 			x.dirty = true
 			x.muts++
 			x.noteContent()
@@ -223,6 +383,11 @@ func (x *wrun) step(i int, f []string) string {
 			return fmt.Sprintf("ok %d", ch)
 		})
 		switch {
+		case present && x.retrying && out == "notfound":
+			// the first attempt removed the key from its branch and then failed (loading the remaining child for the branch
+			// reduction): the ancestors keep their weight and cached hash, the retry does not find the key
+			x.observe("delete-applied-halfway-before-the-storage-error")
+			return out
 		case present:
 			want := "ok"
 			if f[0] == "del" {
@@ -233,6 +398,7 @@ func (x *wrun) step(i int, f []string) string {
 			}
 			if strings.HasPrefix(out, "ok") {
 				delete(x.live, string(key))
+				x.noteChanged(string(key))
 				x.dirty = true
 				x.muts++
 				x.tags["delete-live"] = true
@@ -245,7 +411,7 @@ func (x *wrun) step(i int, f []string) string {
 		}
 		x.checkWeight(i)
 		return out
-	case "commit":
+	case "commit", "commit2":
 		lvl := atoi(f[1])
 		from := x.st.logLen()
 		out := guard(func() string {
@@ -253,8 +419,28 @@ func (x *wrun) step(i int, f []string) string {
 			if err != nil {
 				return werr(err)
 			}
-			if err := b.Commit(true); err != nil {
-				return "err"
+			var b2 storage.Batcher
+			if f[0] == "commit2" {
+				// a second Commit with nothing to write, before the first batch is committed
+				if b2, err = x.t.Commit(lvl); err != nil {
+					return werr(err)
+				}
+				x.tags["commit-twice"] = true
+			}
+			for _, bb := range []storage.Batcher{b, b2} {
+				if bb == nil {
+					continue
+				}
+				if err := bb.Commit(true); err != nil {
+					if !errors.Is(err, errInjected) {
+						return "err"
+					}
+					// the failed operation is the batch commit: it is retried on the same batch
+					x.tags["fault-hit:bcommit-retried"] = true
+					if err := bb.Commit(true); err != nil {
+						return "err"
+					}
+				}
 			}
 			return "ok"
 		})
@@ -279,6 +465,10 @@ func (x *wrun) step(i int, f []string) string {
 		root := guard2(func() []byte { return x.t.Root() })
 		x.croot, x.cweight = root, x.t.Weight()
 		x.committed = x.live.clone()
+		x.changed = nil
+		if x.st.fired() == x.fired0 && len(es) > 0 && len(es[0].ops) > 0 {
+			x.createdSuspect = false // a commit that wrote something replaced the list
+		}
 		x.dirty, x.hashedDirty = false, false
 		x.durable = append(x.durable, wdurable{x.st.logLen(), x.croot, x.cweight, x.committed})
 		if want := canonRootW(x.live, nil); !bytes.Equal(root, want) {
@@ -308,6 +498,7 @@ func (x *wrun) step(i int, f []string) string {
 	case "reload":
 		x.t = openTrie(x.st, x.croot, x.cweight)
 		x.live = x.committed.clone()
+		x.changed = nil
 		x.dirty, x.hashedDirty = false, false
 		x.cp = nil
 		x.tags["reload"] = true
@@ -451,6 +642,19 @@ func (x *wrun) step(i int, f []string) string {
 		if x.cp == nil {
 			return "skip"
 		}
+		if x.createdSuspect {
+			// a read failed inside the last Commit's "created" filter (it asks storage whether a node it wrote existed
+			// before; the error is taken for "did not exist"): the rollback may then delete a node of the checkpoint
+			wasQuiet, n0 := x.quiet, len(x.held)
+			x.quiet = true
+			out := x.opRollback(i, f[0])
+			x.quiet = wasQuiet
+			if len(x.held) > n0 {
+				x.held = x.held[:n0]
+				x.observe("rollback-deletes-a-checkpoint-node-after-a-read-failure-inside-commit")
+			}
+			return out
+		}
 		return x.opRollback(i, f[0])
 	case "getpath":
 		var keys [][]byte
@@ -589,6 +793,12 @@ func (x *wrun) opRollback(i int, kind string) string {
 			left = append(left, k)
 		}
 	}
+	if x.st.fired() != x.fired0 {
+		// the clean-up batch failed (Rollback has no error result): the rolled-back commit's nodes stay behind as orphans;
+		// what must still hold is the checkpoint, now and after the following GC passes
+		x.tags["rollback-cleanup-failed"] = true
+		left = nil
+	}
 	if len(left) > 0 {
 		sort.Strings(left)
 		x.failIn(cover, i, "%d node(s) created by the rolled-back commit only are still in storage, e.g. %x", len(left), left[0])
@@ -597,6 +807,7 @@ func (x *wrun) opRollback(i int, kind string) string {
 		x.cover = cover // the storage is damaged from here on
 	}
 	x.live, x.committed = cp.content.clone(), cp.content.clone()
+	x.changed = nil
 	x.croot, x.cweight = cp.root, cp.weight
 	x.dirty, x.hashedDirty = false, false
 	x.lastPuts = map[string]bool{}
@@ -622,8 +833,16 @@ func (x *wrun) opMirror(i int, f []string) string {
 			}
 		})
 	}
-	rs, rp := apply(x.t), apply(x.part)
+	rs := apply(x.t)
+	if !x.retrying && x.st.fired() != x.fired0 && !strings.HasPrefix(rs, "ok") && rs != "notfound" {
+		return rs // an injected storage failure on the source trie: the imported trie is left alone, the op is retried on both
+	}
 	_, present := x.live[string(key)]
+	if x.retrying && f[0] != "mupd" && present && rs == "notfound" {
+		x.observe("delete-applied-halfway-before-the-storage-error")
+		return rs
+	}
+	rp := apply(x.part)
 	if f[0] == "mupd" {
 		if rs == "ok" {
 			x.live[string(key)] = went{unhx(f[2]), u64(f[3])}
